@@ -505,7 +505,7 @@ impl Cw1Scen {
 
     fn gen_addr(&self, rng: &mut Rng) -> String {
         if rng.chance(1, 25) {
-            format!("-{INVALID_ADDR}")
+            format!("-{}", invalid_addr(rng, &self.pool))
         } else {
             format!("+{}", rng.pick(&self.pool))
         }
@@ -523,7 +523,7 @@ impl Cw1Scen {
         for _ in 0..n {
             // duplicates are possible and are kept by the contract
             if rng.chance(1, 20) {
-                v.push(format!("-{INVALID_ADDR}"));
+                v.push(format!("-{}", invalid_addr(rng, &self.pool)));
             } else {
                 v.push(format!("+{}", rng.pick(&self.pool)));
             }
@@ -770,7 +770,7 @@ impl Cw1Scen {
 
     fn gen_probe_sender(&self, rng: &mut Rng) -> (String, Addr) {
         if rng.chance(1, 20) {
-            (format!("-{INVALID_ADDR}"), Addr::unchecked(INVALID_ADDR))
+            (format!("-{}", invalid_addr(rng, &self.pool)), Addr::unchecked(INVALID_ADDR))
         } else {
             let s = if self.sub { self.pick_sender(rng, 15, 65) } else { self.pick_sender(rng, 50, 0) };
             // the mark is the real result of addr_validate (the proxy's own mock address does not validate)
@@ -869,7 +869,7 @@ impl Scenario for Cw1Scen {
         let non_admin_pool: Vec<Addr> = self.pool.iter().filter(|a| !admins.contains(&a.to_string())).cloned().collect();
         let gen_spender = |rng: &mut Rng| -> String {
             if rng.chance(1, 25) {
-                format!("-{INVALID_ADDR}")
+                format!("-{}", invalid_addr(rng, &self.pool))
             } else if !non_admin_pool.is_empty() && rng.chance(5, 6) {
                 format!("+{}", rng.pick(&non_admin_pool))
             } else {
